@@ -187,6 +187,18 @@ CHECKS = {
         "Exact equality without transforms, 8 ulp with a scaler; nested runs are generated without transforms (result domain of a nested plan is unspecified).",
         "DESIGN.md §3 C09",
     ),
+    "C16": (
+        "exploration",
+        "Hypothesis over configurations and interference histories; differential oracle on bit-exact trace hashes (repeat run, fresh-interpreter run), metamorphic seed-change relation",
+        "Random configurations (1-2 samplers of all six methods, shared or not, per-variable assignment, filters, estimators, masks, SLSQP or "
+        "seeded differential evolution) are run, then 1-3 interfering actions happen (reseeding NumPy's global generator, other runs differing in seed, "
+        "sampler or everything, with the plug-in manager / context / plan+step+validated config object fresh or reused), then the same configuration "
+        "runs again; the evaluator itself reseeds and draws from the global generator at every call. The hash of the complete trace (every evaluator "
+        "request with labels and activity flags, every array of every delivered result, exit code) must be identical, for a fraction of the cases also "
+        "to the hash obtained in a fresh interpreter, and a run differing only in the seed must use different perturbations.",
+        "Deterministic evaluator; same Python/NumPy/SciPy build for the fresh interpreter.",
+        "DESIGN.md §3 C16",
+    ),
 }
 
 NOT_YET = "check not built yet in this session (planned, see DESIGN.md §3)"
